@@ -172,8 +172,70 @@ func runConcurrently(jobs []c17Job, rec *overlapRecorder) ([][]byte, []error, []
 		}(i)
 	}
 	close(start)
-	wg.Wait()
+	done := make(chan struct{})
+	go func() { wg.Wait(); close(done) }()
+	select {
+	case <-done:
+	case <-time.After(45 * time.Second): // a case normally takes well under a second
+		// no logical clock exists for "no deadlock": confirm by looking at the goroutines twice. If the same goroutines sit in the same
+		// blocking calls inside the package 5 s apart and nothing has finished, nothing can make progress any more.
+		d1 := blockedInPackage()
+		select {
+		case <-done:
+			return outs, errs, pans
+		case <-time.After(5 * time.Second):
+		}
+		d2 := blockedInPackage()
+		if len(d1) > 0 && strings.Join(d1, "\n") == strings.Join(d2, "\n") {
+			for i := range pans {
+				if outs[i] == nil && errs[i] == nil && pans[i] == "" {
+					pans[i] = "DEADLOCK: this call never returned; goroutines blocked inside the package (unchanged over 5 s):\n" + strings.Join(d2, "\n")
+				}
+			}
+			return outs, errs, pans
+		}
+		<-done // still making progress: wait (the supervisor's watchdog bounds this)
+	}
 	return outs, errs, pans
+}
+
+// blockedInPackage lists goroutines that are parked in a blocking call with a frame of the package under test on their stack.
+func blockedInPackage() []string {
+	buf := make([]byte, 8<<20)
+	buf = buf[:runtime.Stack(buf, true)]
+	var out []string
+	for _, g := range strings.Split(string(buf), "\n\n") {
+		head := g
+		if i := strings.Index(g, "\n"); i > 0 {
+			head = g[:i]
+		}
+		blocked := false
+		for _, st := range []string{"[semacquire", "[sync.RWMutex", "[sync.Mutex", "[chan send", "[chan receive", "[select", "[sync.Cond"} {
+			if strings.Contains(head, st) {
+				blocked = true
+			}
+		}
+		if !blocked || !strings.Contains(g, "github.com/go-openapi/spec.") {
+			continue
+		}
+		// goroutine id + state + first package frame
+		frame := ""
+		for _, line := range strings.Split(g, "\n") {
+			if strings.HasPrefix(line, "github.com/go-openapi/spec.") {
+				frame = line
+				if i := strings.LastIndex(frame, "("); i > 0 {
+					frame = frame[:i]
+				}
+				break
+			}
+		}
+		if i := strings.Index(head, ","); i > 0 {
+			head = head[:i] + "]" // drop the "N minutes" part, which changes
+		}
+		out = append(out, head+" "+frame)
+	}
+	sort.Strings(out)
+	return out
 }
 
 func expandJob(w *gen.World, kind int, cache func() spec.ResolutionCache) func() ([]byte, error) {
@@ -432,6 +494,8 @@ func c17Run(env *core.Env, idx int) core.CaseResult {
 				got = []byte("ERROR: " + errs[i].Error())
 			}
 			switch {
+			case strings.HasPrefix(pans[i], "DEADLOCK"):
+				res.Violate("hang (deadlock) ["+workload+"]", pans[i], wit)
 			case pans[i] != "":
 				res.Violate("panic in a concurrent call ["+workload+"]", pans[i], wit)
 			case bytes.HasPrefix(got, []byte("ERROR: ")) && bytes.HasPrefix(j.ref, []byte("ERROR: ")):
